@@ -8,7 +8,9 @@ Reads
       HIERARCHICAL_SUMMARIES_V1_MAX_REFS levels
   crates/ripd/src/continuities.rs     : the input producers accept a window on the same limit
       (`tail.complete || message_count >= RECENT_MESSAGES_V1_LIMIT`, window call with RECENT_MESSAGES_V1_LIMIT)
-Emits coq/Gen/CompileConsts.v: gen_recent_limit, gen_max_refs : N, gen_ok_compile_consts : bool and the obligation
+  crates/ripd/src/continuities.rs     : the checkpoint visibility rule of the two *_for_compile_v1 truth loops
+      (`*to_seq > from_seq` alone, or also `event.seq > from_seq`)  -> gen_ckpt_frame_rule
+Emits coq/Gen/CompileConsts.v: gen_recent_limit, gen_max_refs : N, gen_ckpt_frame_rule, gen_ok_compile_consts : bool and the obligation
 gen_compile_consts_ok.  The C08 theorems hold for every limit / level count; the case files evaluate the model at
 the generated values.  A construct that is not found sets gen_ok_compile_consts := false (never guess)."""
 import argparse, os, re, sys
@@ -64,6 +66,36 @@ def main():
     if not re.search(r"window_recent_messages_v1_from_message_id\s*\(\s*continuity_id\s*,\s*anchor_message_id\s*,\s*RECENT_MESSAGES_V1_LIMIT\s*,?\s*\)", co):
         ok = False
         notes.append("window call with RECENT_MESSAGES_V1_LIMIT not found")
+    # checkpoint visibility rule of the two *_for_compile_v1 truth loops: `to_seq <= from_seq` alone (S9) or also the
+    # checkpoint frame's own seq (`event.seq > from_seq` skipped).  Both loops must agree, else never guess.
+    def fn_body(src, name):
+        m = re.search(r"fn\s+%s\s*\(" % name, src)
+        if not m:
+            return None
+        i = src.find("{", m.end())
+        depth, j = 1, i + 1
+        while depth > 0 and j < len(src):
+            depth += {"{": 1, "}": -1}.get(src[j], 0)
+            j += 1
+        return src[i:j]
+    rule = None
+    bodies = [fn_body(co, "latest_compaction_checkpoint_for_compile_v1"), fn_body(co, "hierarchical_compaction_checkpoints_for_compile_v1")]
+    if any(b is None for b in bodies):
+        ok = False
+        notes.append("*_for_compile_v1 functions not found")
+    else:
+        has_to = [bool(re.search(r"\*to_seq\s*>\s*from_seq", b)) for b in bodies]
+        has_own = [bool(re.search(r"event\.seq\s*>\s*from_seq", b)) for b in bodies]
+        if not all(has_to):
+            ok = False
+            notes.append("`*to_seq > from_seq` filter not found in both truth loops")
+        elif all(has_own):
+            rule = True
+        elif not any(has_own):
+            rule = False
+        else:
+            ok = False
+            notes.append("the two truth loops use different checkpoint visibility rules")
     os.makedirs(a.out, exist_ok=True)
     with open(os.path.join(a.out, "CompileConsts.v"), "w") as f:
         f.write("(* GENERATED by tools/gen/compile_consts.py from crates/ripd/src/{context_compiler,session,continuities}.rs — do not edit *)\n")
@@ -72,12 +104,14 @@ def main():
             f.write("(* note: %s *)\n" % n.replace("*)", "* )"))
         f.write("Definition gen_recent_limit : N := %d.\n" % (limit or 0))
         f.write("Definition gen_max_refs : N := %d.\n" % (refs or 0))
+        f.write("(* true: a checkpoint frame is visible only when its own seq is at or before the cut; false: `to_seq <= cut` alone (S9) *)\n")
+        f.write("Definition gen_ckpt_frame_rule : bool := %s.\n" % ("true" if rule else "false"))
         f.write("Definition gen_ok_compile_consts : bool := %s.\n" % ("true" if ok else "false"))
         f.write("Lemma gen_compile_consts_ok : gen_ok_compile_consts && (0 <? gen_recent_limit) && (0 <? gen_max_refs) = true.\n")
         f.write("Proof. vm_compute. reflexivity. Qed.\n")
     for n in notes:
         print("note:", n)
-    print("compile_consts: limit=%s max_refs=%s ok=%s" % (limit, refs, ok))
+    print("compile_consts: limit=%s max_refs=%s frame_rule=%s ok=%s" % (limit, refs, rule, ok))
     return 0
 
 
